@@ -136,6 +136,8 @@ def ob_sequence(ms: List[int], limit: int) -> str:
         loop.run(_join(t1))
     except Deadlock as e:
         return "wedged: %s" % e
+    except C.CancelledError:
+        return "CancelledError escaped the connection handler (messages %r)" % (msgs,)
     loop.settle()
     # ---- reference: which subscriptions are open when the event arrives -------------------------
     open_subs = {}
@@ -173,6 +175,15 @@ def ob_sequence(ms: List[int], limit: int) -> str:
                 return "sub %r is open after all messages but never got its EOSE: %r" % (sid, got_answers)
     if len([a for a in answered if a[0] == "NOTICE"]) != len([g for g in got_answers if g[0] == "NOTICE"]):
         return "refused REQs %r but frames %r" % (answered, [f[:2] for f in frames])
+    # stored events (kind 1 for the kinds[1] filter, kind 2 for kinds[2]) served under a sub id must match a filter that
+    # was given for that id; when everything was buffered, only the LAST filter given for the id can still be served
+    for f in frames:
+        if f[0] == "EVENT" and f[2]["id"] != C.ID1:
+            given = [m[2] for m in msgs if m[0] == "REQ" and str(m[1]) == f[1] and len(m) > 2 and m[2] in (F1, F2)]
+            if EAGER:
+                given = given[-1:]
+            if not any(f[2]["kind"] in g["kinds"] for g in given):
+                return "stored event of kind %d served under %r whose filter(s) are %r (messages %r)" % (f[2]["kind"], f[1], given, msgs)
     live = [f[1] for f in frames if f[0] == "EVENT" and f[2]["id"] == C.ID1]
     want_live = sorted(s for (s, flt) in open_subs.items() if flt == F1)
     if sorted(live) != want_live:
@@ -196,3 +207,95 @@ class _Env:
     def begin(self, **kw):
         import lmdb
         return lmdb.open().begin(**kw)
+
+
+class _Stream:
+    """what conn.stream(query) yields: rows arrive one per loop pass; the k-th one raises (symbolic)"""
+
+    def __init__(self, loop, rows, fail_at):
+        self.loop, self.rows, self.fail_at, self.i = loop, rows, fail_at, 0
+
+    async def __aenter__(self):
+        return self
+
+    async def __aexit__(self, *a):
+        return False
+
+    def __aiter__(self):
+        return self
+
+    async def __anext__(self):
+        await self.loop.sleep(0)
+        if self.i == self.fail_at:
+            raise RuntimeError("engine error while streaming")
+        if self.i >= len(self.rows):
+            raise StopAsyncIteration
+        self.i += 1
+        return self.rows[self.i - 1]
+
+
+@obligation(funcs=["storage.db.Subscription.run_query", "storage.db.DBStorage.run_query"], timeout=(200, 900),
+            bounds="the REAL SQL stored-query task over a streaming result of 0-2 rows: it ends normally, the engine raises at a "
+                   "symbolic row, or the task is cancelled (CLOSE / replacement / disconnect) after a symbolic number of loop "
+                   "passes; <=3 such queries in a row with 2 query slots: the (sub_id, None) sentinel is queued exactly once "
+                   "unless cancelled, and the query slot is always released")
+def ob_sql_query_epilogue(nrows: int, fail_at: int, cancel_after: int, rounds: int) -> str:
+    """
+    pre: 0 <= nrows <= 2 and -1 <= fail_at <= 2 and -1 <= cancel_after <= 3 and 1 <= rounds <= 3
+    post: _.startswith("ok")
+    """
+    logging.disable(logging.CRITICAL)
+    import types
+    from harness import _sqlstore as S
+    from nostr_relay.storage import db as D
+    from envmodel.fake_asyncio import Semaphore
+    loop = Loop()
+    C.install(loop)
+    D.asyncio = loop.namespace()
+    st = S.make_store()
+    st.query_slot = Semaphore(2)
+    st.check_output = None
+    row = (bytes.fromhex(C.ID2), 5, 1, bytes.fromhex(C.PK), [], bytes.fromhex(C.SIG), "c")
+
+    class _Conn:
+        def stream(self_, query):
+            return _Stream(loop, [row] * nrows, fail_at)
+
+    class _Ctx:
+        async def __aenter__(self_):
+            return _Conn()
+
+        async def __aexit__(self_, *a):
+            return False
+
+    st.db.connect = lambda: _Ctx()
+    for r in range(rounds):
+        q = loop.namespace().Queue()
+        sub = D.Subscription.__new__(D.Subscription)
+        sub.storage, sub.sub_id, sub.queue, sub.query, sub.filters = st, "s", q, "SELECT", []
+        sub.client_id, sub.auth_token, sub.is_postgres = "c", {}, False
+        task = loop.create_task(sub.run_query(), "query")
+
+        async def driver():
+            if cancel_after >= 0:
+                for _ in range(cancel_after):
+                    await loop.sleep(0)
+                task.cancel()
+            try:
+                await task
+            except C.CancelledError:
+                pass
+
+        try:
+            loop.run(driver())
+        except Deadlock as e:
+            return "round %d: the query task is wedged (%s)" % (r, e)
+        sentinels = [x for x in q.items if x == ("s", None)]
+        if len(sentinels) > 1:
+            return "%d sentinels queued" % len(sentinels)
+        if not task.was_cancelled and cancel_after < 0 and len(sentinels) != 1:
+            return "query ended (rows=%d, engine error at %d) without queueing the EOSE sentinel" % (nrows, fail_at)
+        if st.query_slot.acquired != 0:
+            return "round %d: query slot not released (%d held) after %s" % (
+                r, st.query_slot.acquired, "cancellation" if cancel_after >= 0 else "the query")
+    return "ok"
